@@ -11,6 +11,11 @@ def direct(name, q=2000, t=50000, shards=14, qtimeout=600, ttimeout=3000):
             "quick": {"checks": q, "shards": 1, "timeout": qtimeout},
             "thorough": {"checks": t, "shards": shards, "timeout": ttimeout}}
 
+def det(name):
+    """deterministic enumeration (no random draws): one run per tier"""
+    return {"name": name, "deterministic": True,
+            "quick": {"checks": 1, "shards": 1, "timeout": 600}, "thorough": {"checks": 1, "shards": 1, "timeout": 1800}}
+
 COMMON_ASSUMPTIONS = [
     "simulated AWS (harness/sim/aws.go) follows the AWS API reference only as far as escalator can observe it",
     "NewController/NewClient/Builder.Build are mirrored by the verif-tagged hooks, not executed",
@@ -22,7 +27,9 @@ CHECKS = {
     "C02": {"level": "exploration", "tests": [hist("TestC02")], "assumptions": COMMON_ASSUMPTIONS},
     "C03": {"level": "exploration", "tests": [hist("TestC03")], "assumptions": COMMON_ASSUMPTIONS},
     "C04": {"level": "exploration", "tests": [hist("TestC04")], "assumptions": COMMON_ASSUMPTIONS},
-    "C05": {"level": "exploration", "tests": [hist("TestC05History")], "assumptions": COMMON_ASSUMPTIONS},
+    "C05": {"level": "exploration", "tests": [
+        det("TestC05Grid"),
+        direct("TestC05Random", q=100000, t=2000000), hist("TestC05History", t=1500)], "assumptions": COMMON_ASSUMPTIONS},
     "C06": {"level": "exploration", "tests": [hist("TestC06")], "assumptions": COMMON_ASSUMPTIONS},
     "C07": {"level": "exploration", "tests": [hist("TestC07")], "assumptions": COMMON_ASSUMPTIONS},
     "C08": {"level": "exploration", "tests": [hist("TestC08")], "assumptions": COMMON_ASSUMPTIONS},
@@ -30,7 +37,14 @@ CHECKS = {
     "C10": {"level": "exploration", "tests": [hist("TestC10")], "assumptions": COMMON_ASSUMPTIONS},
     "C11": {"level": "exploration", "tests": [hist("TestC11")], "assumptions": COMMON_ASSUMPTIONS},
     "C12": {"level": "exploration", "tests": [hist("TestC12")], "assumptions": COMMON_ASSUMPTIONS},
-    "C15": {"level": "exploration", "tests": [hist("TestC15History")], "assumptions": COMMON_ASSUMPTIONS},
-    "C19": {"level": "fault_enumeration", "tests": [hist("TestC19History")], "assumptions": COMMON_ASSUMPTIONS},
+    "C13": {"level": "exploration", "tests": [direct("TestC13", q=20000, t=200000)], "assumptions": COMMON_ASSUMPTIONS},
+    "C14": {"level": "exploration", "tests": [det("TestC14"), direct("TestC14Random", q=20000, t=300000)], "assumptions": ["the property sentence is restated independently in harness/ref/ref.go"]},
+    "C15": {"level": "exploration", "tests": [direct("TestC15Direct", q=3000, t=50000), hist("TestC15History")], "assumptions": COMMON_ASSUMPTIONS},
+    "C16": {"level": "exploration", "tests": [det("TestC16Validation"), direct("TestC16ValidationRandom", q=20000, t=300000), direct("TestC16Decode", q=2000, t=30000),
+                                              {"name": "FuzzC16Decode", "fuzz": True, "quick": None, "thorough": {"checks": 0, "shards": 1, "timeout": 400, "fuzztime": "120s"}}],
+            "assumptions": ["cmd/main.go's validation gate is taken on reading; validator and decoder are checked as functions"]},
+    "C17": {"level": "exploration", "tests": [direct("TestC17", q=3000, t=40000)], "assumptions": COMMON_ASSUMPTIONS},
+    "C18": {"level": "fault_enumeration", "tests": [direct("TestC18", q=60, t=400), direct("TestC18Consecutive", q=300, t=3000)], "assumptions": COMMON_ASSUMPTIONS},
+    "C19": {"level": "fault_enumeration", "tests": [direct("TestC19Direct", q=3000, t=40000), hist("TestC19History")], "assumptions": COMMON_ASSUMPTIONS},
     "C20": {"level": "fault_enumeration", "tests": [hist("TestC20")], "assumptions": COMMON_ASSUMPTIONS},
 }
